@@ -10,6 +10,7 @@ import (
 	"path/filepath"
 	"sort"
 	"strings"
+	"sync"
 	"syscall"
 	"time"
 
@@ -42,7 +43,11 @@ func init() {
 			panic(err)
 		}
 		global := mapr.NewGlobalGroupSet()
-		aggs := map[int]*maprclient.Aggregate{}
+		// one worker per server: a connection's handler delivers its messages one after the other
+		// (a blocked merge blocks that connection only), exactly like the client's per-connection Write
+		queues := map[int]chan string{}
+		var wg sync.WaitGroup
+		var pending sync.WaitGroup
 		var release func()
 		for _, st := range strings.Split(a[1], ",") {
 			switch st[0] {
@@ -54,27 +59,39 @@ func init() {
 				if release != nil {
 					release()
 					release = nil
+					pending.Wait() // every delivery that was waiting for the semaphore completes
 				}
 			case 'A':
 				p := strings.Split(st[1:], ":")
 				i := atoi(p[0])
-				if aggs[i] == nil {
-					aggs[i] = maprclient.NewAggregate(fmt.Sprintf("srv%d", i), q, global)
+				if queues[i] == nil {
+					queues[i] = make(chan string, 1024)
+					agg := maprclient.NewAggregate(fmt.Sprintf("srv%d", i), q, global)
+					wg.Add(1)
+					go func(ch chan string) {
+						defer wg.Done()
+						for m := range ch {
+							agg.Aggregate(m)
+							pending.Done()
+						}
+					}(queues[i])
 				}
-				msg := fmt.Sprintf("%s∥%s∥count(k)≔%s∥", p[1], p[2], p[2])
-				done := make(chan struct{})
-				go func() { aggs[i].Aggregate(msg); close(done) }()
-				select {
-				case <-done:
-				case <-time.After(300 * time.Millisecond):
-					// a blocking merge waits for the semaphore: let the script go on (it will release it)
+				pending.Add(1)
+				queues[i] <- fmt.Sprintf("%s∥%s∥count(k)≔%s∥", p[1], p[2], p[2])
+				if release == nil {
+					pending.Wait()
+				} else {
+					time.Sleep(30 * time.Millisecond) // the delivery blocks on the held semaphore
 				}
 			}
 		}
 		if release != nil {
 			release()
 		}
-		time.Sleep(20 * time.Millisecond)
+		for _, ch := range queues {
+			close(ch)
+		}
+		wg.Wait()
 		return global.VerifCounts(q)
 	}
 
